@@ -278,6 +278,7 @@ def _stage(spec, case, direction, concrete=False, ctx=None, nocut=False):
     """interprets stage 1 (a), lemma, cut, stage 2 (b) and the `_and_log_det` variant of a.
     returns dict with everything needed for goals"""
     ctx = ctx or Ctx()
+    ctx.ite_cap = 40
     I = Interp(ctx)
     inv = spec.invariants(ctx)
     var = spec.x_sym if direction == "fwd" else spec.y_sym
@@ -466,6 +467,7 @@ def ob_logdet_fwd(spec_name, case_name):
 
     def run(concrete=False, case_=case, point=None):
         ctx = Ctx()
+        ctx.ite_cap = 40
         I = Interp(ctx)
         inv = spec.invariants(ctx)
         cs = {c.name: c for c in spec.x_cases()}[case_.name]
@@ -568,6 +570,7 @@ def ob_logdet_inv(spec_name, case_name):
 
     def run(concrete=False):
         ctx = Ctx()
+        ctx.ite_cap = 40
         I = Interp(ctx)
         inv = spec.invariants(ctx)
         cs = {c.name: c for c in spec.y_cases()}[case.name]
